@@ -175,6 +175,10 @@ def run(w: World, rep: Report):
          ast.unparse(t.ast).replace(' ', '') == f'len({root_var})==32']
     rep.check('C05.R2', f'functions.{fi.name}|root-length-guard', bool(g), line=fi.node.lineno, file=REL,
               why='' if g else 'the supplied root is not required to be 32 bytes')
+    _commitment_is_hash_of_bytes(w, rep)
+    from .report import depend
+    depend(rep, w, 'rules_c06', ('C06.R6',), 'C05.TD6',
+           'the non-native lock keeps its root in a definition: the DEF of the lock must replace whatever a witness defined under that handle, and CALL must run it (C06.R6 re-evaluated)', floor=3)
     rep.explanation = (
         'Decides the exactness of the two spend paths structurally: the committed script runs only through the '
         'edge on which the recomputed point equals the popped root, it is the very item that was hashed, a '
@@ -188,3 +192,49 @@ def run(w: World, rep: Report):
             rt2.c05_builders(w, rep)
     except ImportError:
         pass
+
+
+def _commitment_is_hash_of_bytes(w: World, rep: Report):
+    """The `sha256(S)` of the root formula is whatever `Script.commitment()` returns: it must be the hash of
+    the byte code the instance holds at the time of the call, on every path (a memo that can go stale, or a
+    hash of the source text, commits to something other than S)."""
+    rep.rule('C05.R4', 'Script.commitment() returns sha256 of the instance\'s current byte code on every path '
+             '(no stored/memoised value, no other field)', floor=1)
+    tools = w.repo.module('tools')
+    n = 0
+    for fi in tools.funcs.values():
+        if fi.name != 'commitment' or fi.cls is None or fi.parent is not None:
+            continue
+        cd = tools.classes.get(fi.cls)
+        fields = [st.target.id for st in cd.body if isinstance(st, ast.AnnAssign) and isinstance(st.target, ast.Name)] \
+            if cd is not None else []
+        # the class that pairs source and byte code (the committed script S itself)
+        if not ({'src', 'bytes'} <= set(fields)):
+            continue
+        n += 1
+        cfg = w.cfg(fi)
+        kinds = w.kinds(fi)
+        me = fi.params[0]
+        rets = [nd for nd in cfg.nodes if nd.kind == 'stmt' and isinstance(nd.ast, ast.Return)]
+        ok, why = bool(rets), 'no return statement'
+        for r in rets:
+            if r.ast.value is None:
+                ok, why = False, 'returns None on a path'
+                break
+            for l in kinds.of(r.ast.value, r).leaves():
+                good = (l.tag == 'mcall' and l.method == 'digest' and l.recv.tag == 'call' and l.recv.name == 'sha256'
+                        and len(l.recv.args) == 1 and
+                        all(x.tag == 'attr' and x.attr == 'bytes' and kinds.path(x.base) == me
+                            for x in l.recv.args[0].leaves()))
+                if not good:
+                    ok = False
+                    why = (f'a path returns `{ast.unparse(r.ast.value)}` which is not sha256({me}.bytes).digest() computed '
+                           f'at the time of the call: a stored or memoised commitment goes stale when the byte code '
+                           f'changes or the object is copied (dataclasses.replace, +), so locks commit to another script')
+                    break
+            if not ok:
+                break
+        rep.check('C05.R4', f'tools.{fi.cls}.commitment|sha256-of-current-bytes', ok, line=fi.node.lineno,
+                  file='tapescript/tools.py', why='' if ok else why)
+    if n == 0:
+        raise AnalysisError('no class with src/bytes fields and a commitment() method found in tools.py')
